@@ -156,6 +156,9 @@ fn main() {
         "export-db" => {
             db::export(rbx_reflection_database::get(), &mut out);
         }
+        "db-lookups" => {
+            db::export_lookups(rbx_reflection_database::get(), &mut out);
+        }
         "dom-decoded" => {
             let max_ref: usize = arg(&args, "--maxref", "20").parse().unwrap();
             let seed: u64 = arg(&args, "--seed", "1").parse().unwrap();
